@@ -50,7 +50,7 @@ func scale(k Knobs, thorough bool) Knobs {
 }
 
 // clauses every model-based check asserts (harness sanity + no escaped panic)
-var commonClauses = []string{CEscapedPanic, CForeign}
+var commonClauses = []string{CEscapedPanic, CForeign, CNestedInvoke}
 
 // ---------------------------------------------------------------------------
 // C01 — injected values are exactly the registered constructors' outputs
@@ -69,6 +69,15 @@ func init() {
 			k.NoFaults, k.PFault, k.PPanic = false, 6, 65
 			k.PSide = 8
 			k.PSideKey = 4
+			// callbacks that invoke a consumer of their function's own keys
+			k.PCallback, k.PCBInvoke = 8, 50
+			if rapid.IntRange(0, 19).Draw(t, "reentrant-case") < 3 {
+				// constructor bodies that call Invoke (no decorators there:
+				// a running decorator is skipped by design)
+				k.NoDecorators = true
+				k.PReenter = 40
+				k.NoFaults = true // the error of a nested Invoke is dropped by the body
+			}
 			return GenCase(t, scale(k, thorough))
 		},
 		Check: func(c *Case, st *Stats) *Failure {
@@ -79,7 +88,7 @@ func init() {
 			st.Record(c, nt, l)
 			st.Count("zone_skipped_invokes", v.ZoneSkips)
 			return failFrom(v.First(append(commonClauses,
-				CProvSingle, CFromNowhere, CZeroAvailable, CZeroRequired, CGroupForeign, CInvokedOnce, CUnregisteredRan, CBadExec, CPoisoned, CRootCause, CZeroBehindBrokenDeco)...))
+				CProvSingle, CFromNowhere, CZeroAvailable, CZeroRequired, CGroupForeign, CGroupMultiset, CInvokedOnce, CUnregisteredRan, CBadExec, CPoisoned, CRootCause, CZeroBehindBrokenDeco)...))
 		},
 	})
 }
